@@ -5,6 +5,9 @@ mod common;
 
 fuzz_target!(|data: &[u8]| {
     let Ok(text) = std::str::from_utf8(data) else { return };
+    if common::too_deep(text) {
+        return;
+    }
     let files = vec![("src/lib.rs".to_string(), text.to_string())];
     common::guarded(|| {
         for mode in ["none", "zod"] {
